@@ -2,6 +2,7 @@ package rw
 
 import (
 	"google.golang.org/protobuf/proto"
+	"strings"
 
 	"github.com/evstack/ev-node/types"
 	pb "github.com/evstack/ev-node/types/pb/evnode/v1"
@@ -267,11 +268,65 @@ func (r *Result) CheckAll() *world.Problem {
 }
 
 // Judge turns a finished run into a verdict for property id using the given oracle.
+// Diagnose describes where things stand (for stall messages): what of the aggregator's chain is on the DA
+// layer, the aggregator's watermarks, and where the full node is.
+func (r *Result) Diagnose() string {
+	hs, ds := map[uint64]bool{}, map[uint64]bool{}
+	for _, sb := range r.A.DA.Stored() {
+		if hd, err := decodeHeader(sb.Blob); err == nil && hd.Height() > 0 && len(hd.Signature) > 0 {
+			hs[hd.Height()] = true
+		} else if sd, err := decodeData(sb.Blob); err == nil && sd.Metadata != nil {
+			ds[sd.Height()] = true
+		}
+	}
+	var sb strings.Builder
+	ctx := context.Background()
+	for h := r.Genesis.InitialHeight; h <= r.A.Height(); h++ {
+		_, d, err := r.A.Store().GetBlockData(ctx, h)
+		ntx := -1
+		if err == nil {
+			ntx = len(d.Txs)
+		}
+		fmt.Fprintf(&sb, " [%d: %d txs, header on DA=%v, data on DA=%v]", h, ntx, hs[h], ds[h])
+	}
+	if r.A.Node != nil {
+		m := r.A.Node.VerifBlockManager()
+		fmt.Fprintf(&sb, "; aggregator: %d headers / %d data pending, DA-included %d", m.VerifNumPendingHeaders(), m.VerifNumPendingData(), m.GetDAIncludedHeight())
+	}
+	if ex, err := r.A.exited(); ex {
+		fmt.Fprintf(&sb, "; the aggregator's Run has ended by itself: %v", err)
+	}
+	if len(r.A.RunErr) > 0 {
+		fmt.Fprintf(&sb, "; earlier ends of the aggregator's Run: %v", r.A.RunErr)
+	}
+	if r.B.Node != nil {
+		m := r.B.Node.VerifBlockManager()
+		fmt.Fprintf(&sb, "; full node: height %d, DA scan at %d (DA head %d), DA-included %d", r.B.Height(), m.VerifDAHeight(), r.B.DA.Head(), m.GetDAIncludedHeight())
+	}
+	return sb.String()
+}
+
+// GenCrash draws a scenario in which the aggregator's process dies (and is started again on what is on
+// disk) while the full node can learn the chain from the DA layer too.
+func GenCrash(t *rapid.T) Scenario {
+	sc := Gen(t)
+	if sc.Mode == "p2p-only" {
+		sc.Mode = "both"
+	}
+	sc.RestartAgg, sc.SubmitDelayMs = 0, 0
+	sc.CrashAgg = rapid.IntRange(1, sc.Blocks-1).Draw(t, "crashaggat")
+	sc.CrashOps = rapid.IntRange(0, 14).Draw(t, "crashops")
+	return sc
+}
+
 func (r *Result) Judge(id string, oracle func() *world.Problem) world.Verdict {
 	if r.Inconclusive != "" {
 		return world.Verdict{Excluded: true, Labels: append([]string{"rw:inconclusive"}, r.Labels...), Observations: []string{"rw-inconclusive: " + r.Inconclusive}}
 	}
 	labels := r.ClassLabels()
+	if r.CrashStart != "" {
+		return world.Fail(id+"/real/aggregator-unusable-after-crash", "%s", r.CrashStart)
+	}
 	if r.AggStall != "" {
 		if id == "C02" || id == "C07" || (id == "C06" && r.Sc.MaxPending == 0) {
 			// not this property's subject (C01 / C08 / C11 / C13 judge it)
